@@ -163,6 +163,13 @@ pub fn clear_column(path: &Path, column: ColId) -> Result<()> {
 		return Err(Error::Migration("Invalid column index".into()))
 	}
 
+	// Replay and reclaim pending write-ahead logs first (as the other column operations do):
+	// records left in them would otherwise bring the column's data back on the next open.
+	let mut options = Options::with_columns(path, meta.columns.len() as u8);
+	options.salt = Some(meta.salt);
+	options.columns = meta.columns;
+	drop(Db::open(&options)?);
+
 	crate::column::Column::drop_files(column, path.to_path_buf())?;
 
 	Ok(())
